@@ -536,6 +536,18 @@ func (p *Pos) Valid() bool {
 				return false
 			}
 		}
+		// "a pawn that could just have double-pushed": with the push taken back it was the
+		// pusher's turn, so the side now to move must not have been in check then (a check that
+		// exists now was given by the pushed pawn or discovered through its origin square).
+		q := *p
+		if p.White {
+			q.Sq[p.EP-8], q.Sq[p.EP+8] = 0, -P
+		} else {
+			q.Sq[p.EP+8], q.Sq[p.EP-8] = 0, P
+		}
+		if q.Attacked(q.KingSq(p.White), !p.White) {
+			return false
+		}
 	}
 	return true
 }
